@@ -186,6 +186,33 @@ def run(ck):
             ck.violation("R2.restore-fields", "R2|addDiskRestore|attach", s.where(), "addDiskRestore attaches %s" % s.desc()[:80])
     ck.require_passed("R2.restore-indexed", ck.flow(ar, markers={"hashed": ev_call(ENT + "hashInsert", arg={0: E.m_is_ref("key")})}), ev_exit(), "hashed", "return",
                       why="(the restored entry would not be findable by its key)")
+    ck.rule("V1 post-rebuild validation (storeSwapInStart refuses entries without ENTRY_VALIDATED, so an entry the walk skips is loaded from swap.state but served as a "
+            "miss): in storeCleanup every entry the search yields -- every true result of currentSearch->next() -- is taken (currentItem()) before the loop can leave or "
+            "advance again, and every taken entry ends the iteration with ENTRY_VALIDATED set, or was already validated, or has no disk file")
+    sr = ck.facts(["src/store_rebuild.cc"], whole=False)
+    sc = sr.fn("storeCleanup")
+    nxt = E.M(lambda t: E.strip(t).get("k") == "call" and E.strip(t).get("f") == "StoreSearch::next", "currentSearch->next()")
+    item = ev_call("StoreSearch::currentItem")
+    ck.require_response("V1.every-yielded-entry-taken", sc, nxt, True, item, "currentItem()", term_kinds=("WhileStmt", "ForStmt", "BinaryOperator", "IfStmt"),
+                        why="(an entry the search already advanced past would never be validated)")
+    vtest = E.M(lambda t: "ENTRY_VALIDATED" in E.key(t) and E.strip(t).get("k") == "bin" and E.strip(t).get("op") == "&", "EBIT_TEST(e->flags, ENTRY_VALIDATED)")
+    hasdisk = E.M(lambda t: E.strip(t).get("k") == "call" and E.strip(t).get("f") == "StoreEntry::hasDisk", "e->hasDisk()")
+    vset = lambda ev: ev.get("e") == "asg" and ev.get("op") == "|=" and "ENTRY_VALIDATED" in E.key(ev.get("rhs"))
+    scf = ck.flow(sc, markers={"set": vset, "taken": item}, track_markers=["set", "taken"], track_atoms={"was": vtest, "disk": hasdisk},
+                  on_event=lambda ev, env, fs: ([env.pop(k, None) for k in ("#set", "@was", "@disk", "@key:was", "@key:disk")] if item(ev) else None))
+    nv = 0
+    for st in scf.sites:
+        is_next = st.ev.get("e") == "call" and E.strip(st.ev["x"]).get("f") == "StoreSearch::next"
+        is_exit = st.ev.get("e") == "exit" and st.ev.get("kind") in ("ret", "fall")
+        if not (is_next or is_exit) or st.env.get("#taken") != 1:
+            continue
+        nv += 1
+        if st.env.get("#set") == 1 or st.tracked("was") is True or st.tracked("disk") is False:
+            ck.ok("V1.taken-entry-validated", st.where(), "the entry taken last was validated, already valid, or has no disk file")
+        else:
+            ck.violation("V1.taken-entry-validated", "V1|storeCleanup|taken-entry-left-unvalidated", st.where(),
+                         "storeCleanup can move on from an entry it took without setting ENTRY_VALIDATED (and without it being already validated or disk-less)", scf.witness(st))
+    ck.need(nv >= 1, "C17: storeCleanup's iteration end was not found")
     ck.assume("rock cache_dirs are not decided here: Rock::Rebuild drops both chains when stale slots of an overwritten entry are met (duplicated/inode conflict/overflowing), "
               "so no exact reject table exists; what it accepts is C57")
     ck.assume("the walk visits every entry (replacement-policy walker), StoreSwapLogData::sane() value ranges, the running (dirty) log writer UFSSwapDir::logEntry, the directory-scan "
